@@ -165,7 +165,9 @@ pub fn k_elf_iter_provided_methods() {
     let mut it2 = mk();
     let _ = it2.next();
     let cl = it2.clone();
-    assert!(cl.current_section == it2.current_section && cl.remaining_sections == it2.remaining_sections
-        && cl.entry_size == it2.entry_size && cl.string_section == it2.string_section);
+    assert!(cl.current_section == it2.current_section);
+    assert!(cl.remaining_sections == it2.remaining_sections);
+    assert!(cl.entry_size == it2.entry_size);
+    assert!(cl.string_section == it2.string_section);
     kani::cover!(c == 2 && n == 1 && !used[0]);
 }
